@@ -1,12 +1,156 @@
-//! C05 — ops evaluated on the real code and the generator of their inputs.
-#![allow(unused_imports, dead_code, clippy::all)]
+//! C05 (BFS half) — `BfsPred` on the real code, every representation.
+//!
+//!   bfs_pred_iter          <desc> <sources>        =>  [[pred v] …]       (pred = none | id)
+//!   bfs_pred_predecessors  <desc> <sources>        =>  [pred …]
+//!   bfs_pred_shortest_path <desc> <sources> <tgt>  =>  none | [v …]
+//!   bfs_pred_cycles        <desc> <sources>        =>  [[v …] …]
+//!
+//! `<tgt>` ∈ `[eq t] [in [..]] never always`.  The `DijkstraPred` half of C05 lives in `c03.rs`.
+#![allow(clippy::all)]
 
 use crate::graphs::{self, Desc};
+use crate::ops::c04::{for_all_small, gen_case, small_desc};
 use crate::rng::Rng;
 use crate::value::V;
+use crate::with_digraph;
+use graaf::BfsPred;
 
-pub fn eval(_op: &str, _args: &[V]) -> Option<Vec<V>> {
-    None
+enum Tgt {
+    Eq(usize),
+    In(Vec<usize>),
+    Never,
+    Always,
 }
 
-pub fn gen(_rng: &mut Rng, _thorough: bool, _emit: &mut dyn FnMut(String)) {}
+fn parse_tgt(v: &V) -> Option<Tgt> {
+    match v {
+        V::A(a) if a == "never" => Some(Tgt::Never),
+        V::A(a) if a == "always" => Some(Tgt::Always),
+        V::L(xs) if xs.len() == 2 => match xs[0].as_atom()? {
+            "eq" => Some(Tgt::Eq(xs[1].as_usize()?)),
+            "in" => Some(Tgt::In(xs[1].as_usizes()?)),
+            _ => None,
+        },
+        _ => None,
+    }
+}
+
+pub fn eval(op: &str, args: &[V]) -> Option<Vec<V>> {
+    match op {
+        "bfs_pred_iter" => {
+            let [desc, srcs] = args else { return None };
+            let desc = Desc::parse(desc)?;
+            let srcs = srcs.as_usizes()?;
+            let out: Vec<(Option<usize>, usize)> =
+                with_digraph!(&desc, d => BfsPred::new(&d, srcs.iter().copied()).collect());
+            Some(vec![V::L(out.into_iter().map(|(p, v)| V::L(vec![V::opt_u(p), V::u(v)])).collect())])
+        }
+        "bfs_pred_predecessors" => {
+            let [desc, srcs] = args else { return None };
+            let desc = Desc::parse(desc)?;
+            let srcs = srcs.as_usizes()?;
+            let tree = with_digraph!(&desc, d => BfsPred::new(&d, srcs.iter().copied()).predecessors());
+            Some(vec![V::L(tree.pred.iter().map(|e| V::opt_u(*e)).collect())])
+        }
+        "bfs_pred_shortest_path" => {
+            let [desc, srcs, tgt] = args else { return None };
+            let desc = Desc::parse(desc)?;
+            let srcs = srcs.as_usizes()?;
+            let tgt = parse_tgt(tgt)?;
+            let r: Option<Vec<usize>> = with_digraph!(&desc, d => {
+                let mut it = BfsPred::new(&d, srcs.iter().copied());
+                match &tgt {
+                    Tgt::Eq(t) => it.shortest_path(|v| v == *t),
+                    Tgt::In(ts) => it.shortest_path(|v| ts.contains(&v)),
+                    Tgt::Never => it.shortest_path(|_| false),
+                    Tgt::Always => it.shortest_path(|_| true),
+                }
+            });
+            Some(vec![r.map_or_else(V::none, V::us)])
+        }
+        "bfs_pred_cycles" => {
+            let [desc, srcs] = args else { return None };
+            let desc = Desc::parse(desc)?;
+            let srcs = srcs.as_usizes()?;
+            let cs: Vec<Vec<usize>> = with_digraph!(&desc, d => BfsPred::new(&d, srcs.iter().copied()).cycles());
+            Some(vec![V::L(cs.into_iter().map(V::us).collect())])
+        }
+        _ => None,
+    }
+}
+
+/// Target predicates: a single vertex (possibly absent: id = order), small and large sets
+/// (several competing targets), unsatisfiable, always (a source is the target).
+fn gen_tgt(rng: &mut Rng, n: usize, srcs: &[usize]) -> V {
+    // two thirds of the set targets avoid the sources, so that several proper targets compete
+    let avoid = rng.chance(2, 3);
+    let keep = |v: &usize| !(avoid && srcs.contains(v));
+    match rng.below(12) {
+        0 => V::atom("never"),
+        1 => V::atom("always"),
+        2..=4 => V::L(vec![V::atom("eq"), V::u(rng.below(n + 1))]),
+        5..=8 => {
+            let k = 2 + rng.below(3);
+            let ts: Vec<usize> = (0..k).map(|_| rng.below(n + 1)).filter(keep).collect();
+            V::L(vec![V::atom("in"), V::us(ts)])
+        }
+        _ => {
+            // a large set: about a third of the vertices
+            let ts: Vec<usize> = (0..n).filter(|_| rng.chance(1, 3)).filter(keep).collect();
+            V::L(vec![V::atom("in"), V::us(ts)])
+        }
+    }
+}
+
+pub fn gen(rng: &mut Rng, thorough: bool, emit: &mut dyn FnMut(String)) {
+    // (1) exhaustive small scope (<= 3 quick, <= 4 thorough): every digraph x every source subset;
+    //     ops / representations rotate; shortest_path with every single-vertex target and `always`
+    //     on <= 3 vertices.
+    let max_n = if thorough { 4 } else { 3 };
+    for n in 1..=max_n {
+        for_all_small(n, &mut |idx, arcs, srcs| {
+            let repr = graphs::ALL_REPRS[idx % 6];
+            let d = small_desc(repr, n, arcs).to_v();
+            let s = V::us(srcs.iter().copied());
+            let all = thorough && n <= 3;
+            let k = (idx / 6) % 4;
+            if all || k == 0 {
+                emit(format!("bfs_pred_iter {d} {s}"));
+            }
+            if all || k == 1 {
+                emit(format!("bfs_pred_predecessors {d} {s}"));
+            }
+            if all || k == 2 {
+                emit(format!("bfs_pred_cycles {d} {s}"));
+            }
+            if all {
+                for t in 0..n {
+                    emit(format!("bfs_pred_shortest_path {d} {s} [eq {t}]"));
+                }
+                emit(format!("bfs_pred_shortest_path {d} {s} always"));
+                emit(format!("bfs_pred_shortest_path {d} {s} [in [{} {}]]", n - 1, n / 2));
+            } else if k == 3 {
+                let t = (idx / 24) % (n + 1);
+                if t == n {
+                    emit(format!("bfs_pred_shortest_path {d} {s} [in [0 {}]]", n - 1));
+                } else {
+                    emit(format!("bfs_pred_shortest_path {d} {s} [eq {t}]"));
+                }
+            }
+        });
+    }
+    // (2) random cases, orders 1..130, all representations
+    let n_random = if thorough { 12_000 } else { 600 };
+    for _ in 0..n_random {
+        let (desc, srcs) = gen_case(rng);
+        let n = desc.order();
+        let d = desc.to_v();
+        let s = V::us(srcs.iter().copied());
+        emit(format!("bfs_pred_iter {d} {s}"));
+        emit(format!("bfs_pred_predecessors {d} {s}"));
+        emit(format!("bfs_pred_cycles {d} {s}"));
+        for _ in 0..4 {
+            emit(format!("bfs_pred_shortest_path {d} {s} {}", gen_tgt(rng, n, &srcs)));
+        }
+    }
+}
